@@ -10,10 +10,12 @@ CONSTANTS
   Mults = %(mults)s
   MaxObjs = %(maxobjs)d
   MaxDepth = %(depth)d
+  Tabs = %(tabs)s
 INVARIANT Emit
 INVARIANT NonNegative
 PROPERTY OperandsUnchanged
 PROPERTY ObjectsNeverVanish
+PROPERTY ChTabKeepsComposition
 """
 TRACE_CFG = """CONSTANTS
   Vars = {"x", "y", "z"}
@@ -22,6 +24,7 @@ TRACE_CFG = """CONSTANTS
   Mults = {"0", "0.5", "1", "2", "3", "1.5", "0.25"}
   MaxObjs = 99
   MaxDepth = 99
+  Tabs = {0, 1}
 """
 
 
@@ -29,8 +32,8 @@ def sset(xs):
     return "{" + ", ".join('"%s"' % x for x in xs) + "}"
 
 
-def gen(ctx, name, vars_, bases, mults, depth, simulate=None):
-    cfg = CFG % dict(vars=sset(vars_), bases=sset(bases), mults=sset(mults), maxobjs=depth + 1, depth=depth)
+def gen(ctx, name, vars_, bases, mults, depth, simulate=None, tabs="{0}"):
+    cfg = CFG % dict(vars=sset(vars_), bases=sset(bases), mults=sset(mults), maxobjs=depth + 1, depth=depth, tabs=tabs)
     if simulate:
         res = tlc.run("MC_Formula", cfg, workers=16, simulate="num=%d" % simulate, depth=depth + 2, seed=ctx.seed + 3, timeout=900)
     else:
@@ -99,7 +102,11 @@ def run(ctx):
         hs = hs[:3000]
     deep = gen(ctx, "simulate depth 7 (3 variables, all bases)", ["x", "y", "z"],
                ["CH4", "H2O", "Fe3O4", "D2O18", "hydrate", "zero", "half", "H"], ["0", "0.5", "1", "2", "3", "1.5", "0.25"], 7,
-               simulate=(5 if quick else 100))
+               simulate=(5 if quick else 100), tabs="{0, 1}")
+    # two tables, change_table: all maximal histories of depth 3 over one base
+    two = gen(ctx, "exhaustive depth 3 (2 variables, 2 tables, change_table)", ["x", "y"], ["H2O"], ["3"], 3, tabs="{0, 1}")
+    rng.shuffle(two)
+    hs += two[:(1500 if quick else len(two))]
     rng.shuffle(deep)
     hs += deep[:(1500 if quick else 30000)]
     fixed = [[6, 0, 0, "C"], [1, 0, 0, "H"], [8, 0, 0, "O"], [26, 0, 2, "Fe{2+}"], [26, 0, 3, "Fe{3+}"], [8, 18, 0, "O[18]"], [1, 2, 0, "D"]]
